@@ -190,15 +190,11 @@ func ruleC11Bracket(c *Ctx) {
 					return
 				}
 				releases := false
-				if g := staticCallee(d); g != nil && g.Name() == "release" {
+				if g := staticCallee(d); g != nil && (g.Name() == "release" || reachesRelease(g, 0)) {
 					releases = true
 				}
 				if mc, isMC := d.Call.Value.(*ssa.MakeClosure); isMC {
-					allInstrs(mc.Fn.(*ssa.Function), func(j ssa.Instruction) {
-						if g := staticCallee(j); g != nil && g.Name() == "release" {
-							releases = true
-						}
-					})
+					releases = releases || reachesRelease(mc.Fn.(*ssa.Function), 0)
 				}
 				if releases {
 					v, isV := acc.(ssa.Value)
@@ -209,17 +205,11 @@ func ruleC11Bracket(c *Ctx) {
 				if !instrDominates(i, action) {
 					return
 				}
-				if g := staticCallee(d); g != nil && g.Name() == "release" {
+				if g := staticCallee(d); g != nil && (g.Name() == "release" || mustRelease(g, 0)) {
 					okRel = true
 				}
-				if mc, isMC := d.Call.Value.(*ssa.MakeClosure); isMC {
-					allInstrs(mc.Fn.(*ssa.Function), func(j ssa.Instruction) {
-						if g := staticCallee(j); g != nil && g.Name() == "release" {
-							if _, isCall := j.(*ssa.Call); isCall && j.Block() == j.Parent().Blocks[0] {
-								okRel = true
-							}
-						}
-					})
+				if mc, isMC := d.Call.Value.(*ssa.MakeClosure); isMC && mustRelease(mc.Fn.(*ssa.Function), 0) {
+					okRel = true
 				}
 			})
 			// the bytes handed to the action are the secret's own
@@ -610,4 +600,38 @@ func allocThenLock(f *ssa.Function, r *ssa.Return, depth int) bool {
 		ok = strip(callOf(lock).Args[0]) == strip(resultsOfType(alloc, isByteSlice)[0][0])
 	}
 	return ok
+}
+
+// mustRelease: every path through g calls release() (directly, or through a helper that does) — unconditionally.
+func mustRelease(g *ssa.Function, depth int) bool {
+	if g == nil || g.Blocks == nil || depth > 2 {
+		return false
+	}
+	ok, _ := mustPass(g.Blocks[0], 0, func(j ssa.Instruction) bool {
+		if _, isCall := j.(*ssa.Call); !isCall {
+			return false
+		}
+		h := staticCallee(j)
+		if h == nil {
+			return false
+		}
+		return h.Name() == "release" || (h != g && h.Pkg == g.Pkg && mustRelease(h, depth+1))
+	}, nil)
+	return ok
+}
+
+// reachesRelease: some path through g calls release() (used to find every defer that can decrement the reader count).
+func reachesRelease(g *ssa.Function, depth int) bool {
+	if g == nil || g.Blocks == nil || depth > 2 {
+		return false
+	}
+	hit := false
+	allInstrs(g, func(j ssa.Instruction) {
+		if h := staticCallee(j); h != nil {
+			if h.Name() == "release" || (h != g && h.Pkg == g.Pkg && reachesRelease(h, depth+1)) {
+				hit = true
+			}
+		}
+	})
+	return hit
 }
